@@ -190,6 +190,7 @@ func (s *Server) Run(addr string, opt ...Option) error {
 		if err != nil {
 			return fmt.Errorf("%s: unable to create in-memory conn: %w", op, err)
 		}
+		conn.recoverPanics = !s.disablePanicRecovery
 		localConnID := connID
 		s.connWg.Add(1)
 		go func() {
